@@ -15,7 +15,7 @@ def run(chk, args):
               allow_reset=True, tight=False, edges=False, invariants=INV)
     if not q:
         mc_bounds(chk, "SAM4", N=4, cls="SAM", sing="m2to0", slacks="m2to0", computers={"sam"}, reps={0, 1, 2, 4}, maxchg=1,
-                  allow_reset=False, tight=False, edges=False, invariants=INV, timeout=3400)
+                  allow_reset=False, tight=False, edges=False, invariants=INV, timeout=5400)
     validate_bounds_traces(chk, [
         {"family": "sam", "ns": "3,4" if q else "3,4", "count": 20 if q else 120, "length": 12 if q else 16, "reps": "0,1,2,5,10"},
         {"family": "sam", "ns": "5" if q else "5,6", "count": 40 if q else 200, "length": 12 if q else 18, "reps": "0,1,3"},
